@@ -40,3 +40,17 @@ package preflight
 //@   sink Writer.Patch#1 requires [C11] dryrun
 //@   sink Writer.Create#1 requires [C11] dryrun
 //@   ensures [C11] err == nil && len(violations) == 0 ==> lastWriteOK()
+
+// An ObjectSet that lists the same object twice is refused: whenever two different positions of the phases hold
+// objects with the same group, kind, namespace and name (whatever their API versions), a violation is reported.
+// dupKeyOf is the key the check records per object; it is a function of exactly those four parts. (Stated for objects
+// whose content map is not nil - an object decoded from the API always has one.)
+//@ func package-operator.run/internal/preflight.(*ObjectDuplicate).Check
+//@   ensures [C11] err == nil
+//@   ensures [C11] forall a int, i int, b int, j int :: 0 <= a && a < len(phases) && 0 <= i && i < len(phases[a].Objects) && phases[a].Objects[i].Object.Object != nil && 0 <= b && b < len(phases) && 0 <= j && j < len(phases[b].Objects) && phases[b].Objects[j].Object.Object != nil && (a != b || i != j) && grp(phases[a].Objects[i].Object) == grp(phases[b].Objects[j].Object) && kind(phases[a].Objects[i].Object) == kind(phases[b].Objects[j].Object) && ns(phases[a].Objects[i].Object) == ns(phases[b].Objects[j].Object) && name(phases[a].Objects[i].Object) == name(phases[b].Objects[j].Object) ==> len(violations) > 0
+//@   loop 1 invariant gomem_unchanged(maps) && 0 <= idx && idx <= len(phases) && (cap(violations) == 0 || (fresh(sarr(violations)) && allocated(sarr(violations))))
+//@   loop 2 invariant gomem_unchanged(maps) && 0 <= idx && 0 <= idx1 && idx1 < len(phases) && (cap(violations) == 0 || (fresh(sarr(violations)) && allocated(sarr(violations))))
+//@   loop 1 invariant [C11] forall a int, i int :: 0 <= a && a < len(phases) && 0 <= i && i < len(phases[a].Objects) && phases[a].Objects[i].Object.Object != nil && a < idx ==> (dupKeyOf(phases[a].Objects[i].Object) in visited)
+//@   loop 1 invariant [C11] len(violations) == 0 ==> (forall a int, i int, b int, j int :: 0 <= a && a < len(phases) && 0 <= i && i < len(phases[a].Objects) && phases[a].Objects[i].Object.Object != nil && 0 <= b && b < len(phases) && 0 <= j && j < len(phases[b].Objects) && phases[b].Objects[j].Object.Object != nil && a < idx && b < idx && (a != b || i != j) ==> dupKeyOf(phases[a].Objects[i].Object) != dupKeyOf(phases[b].Objects[j].Object))
+//@   loop 2 invariant [C11] forall a int, i int :: 0 <= a && a < len(phases) && 0 <= i && i < len(phases[a].Objects) && phases[a].Objects[i].Object.Object != nil && (a < idx1 || (a == idx1 && i < idx)) ==> (dupKeyOf(phases[a].Objects[i].Object) in visited)
+//@   loop 2 invariant [C11] len(violations) == 0 ==> (forall a int, i int, b int, j int :: 0 <= a && a < len(phases) && 0 <= i && i < len(phases[a].Objects) && phases[a].Objects[i].Object.Object != nil && 0 <= b && b < len(phases) && 0 <= j && j < len(phases[b].Objects) && phases[b].Objects[j].Object.Object != nil && (a < idx1 || (a == idx1 && i < idx)) && (b < idx1 || (b == idx1 && j < idx)) && (a != b || i != j) ==> dupKeyOf(phases[a].Objects[i].Object) != dupKeyOf(phases[b].Objects[j].Object))
